@@ -549,6 +549,15 @@ func (p *Parser) parseStmt(allowDeclaration bool) (stmt IStmt) {
 				return
 			}
 			stmt = p.parseAsyncFuncDecl()
+		} else if p.tt == ColonToken {
+			// async is not a reserved word: it can be a label
+			p.next()
+			prevDeflt := p.deflt
+			if p.tt == FunctionToken {
+				p.deflt = false
+			}
+			stmt = &LabelledStmt{async, p.parseStmt(true)}
+			p.deflt = prevDeflt
 		} else {
 			// expression
 			stmt = &ExprStmt{p.parseAsyncExpression(OpExpr, async)}
